@@ -72,6 +72,18 @@ def run_case(case: dict[str, Any], tier: str, seed: int) -> dict[str, Any]:
         return {"status": "skipped", "reason": "metadata_skips_numeric_validation"}
     res = programs.differential(prog, _draws(prog.pid, tier, seed), seed=seed)
     rec = recs.record_from_differential(prog, res)
+    if case["src"] == "generated" and rec.get("violations"):
+        from vlib import generated
+
+        classes = sorted({v["cls"] for v in rec["violations"]})
+        mini = generated.minimise(case, [d for d in vin.DRAW_CLASSES if programs.relevant_class(prog.signature({}), *d) in classes] or _draws(prog.pid, tier, seed), seed)
+        for v in rec["violations"]:
+            v["family"] = "gen/" + (mini[1] if mini else "composition")
+            v["text"] = (f"first diverging step {mini[0]} = {mini[1]}; " if mini else "not reducible to one step; ") + v["text"]
+    if case["src"] == "generated":
+        rec.setdefault("obs", {})["generated_programs"] = 1
+        if rec.get("sample") is not None:
+            rec["sample"]["recipe_ops"] = [s_[0] for s_ in case["recipe"]["steps"]]
     if case["src"] == "sentinel":
         from vlib import sentinels
 
